@@ -377,6 +377,7 @@ std::string Preprocessor::expandMacros(const std::string &line) {
     // マクロを展開（複数回パス）
     bool changed = true;
     int max_iterations = 100; // 無限ループ防止
+    const size_t max_expansion_growth = 16384; // 1行あたりの展開による増加の上限
     int iterations = 0;
 
     while (changed && iterations < max_iterations) {
@@ -412,6 +413,12 @@ std::string Preprocessor::expandMacros(const std::string &line) {
                     pos += macro.body.length();
                     // 文字列範囲を再計算（置換のたびに行い、同じマクロの残りの出現も続けて処理する）
                     recompute_string_ranges();
+                    // 自己参照マクロ（#define A A A など）による指数的な膨張を防ぐ
+                    if (result.length() > line.length() + max_expansion_growth) {
+                        addError("Macro expansion too large (self-referential "
+                                 "macro definition?)");
+                        return result;
+                    }
                 } else {
                     pos += name.length();
                 }
